@@ -344,7 +344,7 @@ impl Wal {
         let segment_num = Self::find_latest_segment(dir)?;
         let segment_path = dir.join(format!("wal.{:06}", segment_num));
 
-        let segment = if segment_path.exists() {
+        let mut segment = if segment_path.exists() {
             WalSegment::open(&segment_path, segment_num)?
         } else {
             WalSegment::create(&segment_path, segment_num)?
@@ -368,6 +368,8 @@ impl Wal {
                 page_index.insert((header.file_id, header.page_no), (segment_num, offset));
                 offset += (WAL_FRAME_HEADER_SIZE + PAGE_SIZE) as u64;
             }
+
+            segment.position_at(offset)?;
         }
 
         let frame_count = page_index.len() as u32;
@@ -609,16 +611,10 @@ impl Wal {
 
         segment
             .writer
-            .get_mut()
-            .set_len(0)
-            .wrap_err("failed to truncate WAL segment file")?;
-
-        segment
-            .writer
             .flush()
-            .wrap_err("failed to flush WAL segment after truncate")?;
+            .wrap_err("failed to flush WAL segment before truncate")?;
 
-        segment.offset = 0;
+        segment.position_at(0)?;
 
         drop(segment);
 
@@ -1037,6 +1033,19 @@ impl WalSegment {
             offset: len,
             path: path.to_path_buf(),
         })
+    }
+
+    /// Makes `len` the end of the segment: drops any bytes after it (a torn or
+    /// invalid tail) and moves both the file cursor and the logical offset there,
+    /// so the next frame is appended directly after the last valid one.
+    fn position_at(&mut self, len: u64) -> Result<()> {
+        let file = self.writer.get_mut();
+        file.set_len(len)
+            .wrap_err("failed to set WAL segment length")?;
+        file.seek(SeekFrom::Start(len))
+            .wrap_err("failed to position WAL segment for appending")?;
+        self.offset = len;
+        Ok(())
     }
 
     pub fn sequence(&self) -> u64 {
